@@ -1386,7 +1386,7 @@ impl Recv {
         format!(
             "\"recv_window\":{},\"recv_available\":{},\"in_flight_data\":{},\"recv_buffer_len\":{},\
              \"last_processed_id\":{},\"recv_max_stream_id\":{},\"refused\":{},\"recv_init_window\":{}",
-            self.flow.window_size(),
+            self.flow.verif_window(),
             isize::from(self.flow.available()),
             self.in_flight_data,
             self.buffer.verif_len(),
